@@ -580,13 +580,16 @@ impl PoolBuilder {
             return 0;
         }
         let ids = self.index.entry(s.to_string()).or_default();
-        if ids.is_empty() || (self.duplicates && ids.len() < 2 && s.len() % 3 == 0) {
+        self.toggle += 1;
+        let pick = if ids.is_empty() || (self.duplicates && ids.len() < 2 && s.len() % 3 == 0) {
+            // a new copy is always referenced by the cell that caused it (no dead entry with text)
             self.texts.push(Some(s.to_string()));
             self.counts.push(0);
             ids.push(self.texts.len() - 1);
-        }
-        self.toggle += 1;
-        let pick = ids[self.toggle % ids.len()];
+            self.texts.len() - 1
+        } else {
+            ids[self.toggle % ids.len()]
+        };
         self.counts[pick] += 1;
         (pick + 1) as u32
     }
